@@ -808,8 +808,8 @@ func GenHandoffScript(t *rapid.T, thorough bool) *Script {
 			ops = append(ops, Op{Kind: "advance", N: pick(t, "adv", 1, 10, 61)})
 		}
 	}
-	// faults stop: transient bind failures are used up by generous retries, then clean rounds
-	for i := 0; i < 4; i++ {
+	// faults stop: transient bind failures (at most 5) are used up, one attempt per request and cycle, then clean rounds
+	for i := 0; i < 8; i++ {
 		ops = append(ops, Op{Kind: "cycle"}, Op{Kind: "rbinder", N: 6}, Op{Kind: "kubelet"})
 	}
 	s.Ops = ops
